@@ -6,7 +6,19 @@ use rsdriver::*;
 use serde_json::{json, Value};
 use std::panic::catch_unwind;
 
+/// Context variation: decoding is a pure function of the bytes, so every third decode is preceded
+/// (on the same thread) by the decode of a truncated prefix of the frame, whose result is ignored.
+/// State carried between calls (a scratch buffer not cleared on an error path, a cache) then shows
+/// up as a wrong verdict for the frame itself.
+static CALLS: std::sync::atomic::AtomicUsize = std::sync::atomic::AtomicUsize::new(0);
+
 fn shown(frame: &[u8]) -> (String, i64, i64) {
+    let k = CALLS.fetch_add(1, std::sync::atomic::Ordering::Relaxed);
+    if k % 3 == 2 && frame.len() > 1 {
+        let cut = 1 + (k / 3) % (frame.len() - 1);
+        let t = frame[..cut].to_vec();
+        let _ = catch_unwind(move || Message::try_from(t.as_slice()).is_ok());
+    }
     let f = frame.to_vec();
     match catch_unwind(move || Message::try_from(f.as_slice()).map(|m| serde_json::to_value(&m).ok())) {
         Ok(Ok(Some(v))) => {
